@@ -98,8 +98,9 @@ func (w *vkWorld) judge(tp vkTopo, r vkRun, resolvable bool) []vkViol {
 				}
 			}
 			if b := r.Second; b != nil && b.Returned {
+				// EDE 13, or a SERVFAIL with no EDE at all, no upstream packet and no budget rejection of its own
 				fromCache := b.hasEDE(dns.ExtendedErrorCodeCachedError) ||
-					(b.Rcode == dns.RcodeServerFailure && b.Packets == 0 && !b.overBudget())
+					(b.Rcode == dns.RcodeServerFailure && b.Packets == 0 && !b.overBudget() && len(b.EDE) == 0)
 				if fromCache {
 					bad("overbudget-cached", "a second client asking the same question right after the over-budget SERVFAIL (%q) was answered %s with %d upstream packets: a cached failure", a.Latched, b.outcome(), b.Packets)
 				}
